@@ -30,6 +30,8 @@ func SentinelMiddleware(opts ...Option) gin.HandlerFunc {
 		if err != nil {
 			if options.blockFallback != nil {
 				options.blockFallback(c)
+				// a fallback that only writes its response must not let gin go on to the handler
+				c.Abort()
 			} else {
 				c.AbortWithStatus(http.StatusTooManyRequests)
 			}
